@@ -409,6 +409,76 @@ def release_while_another_thread_polls(tmpdir):
     return problems
 
 
+def abandoned_holder_and_descriptor_reuse(tmpdir):
+    """C02/C13: (a) a holder object that is garbage-collected while holding gives the lock back and leaves the lock
+    FILE alone (removing it would let a waiter lock the orphaned inode while newcomers lock a new file of that
+    name); (b) while A releases, B acquires as early as it can: whatever A does afterwards must not touch B's lock
+    (a descriptor number used after close() may by then be B's)."""
+    import gc
+    problems = []
+    path = os.path.join(tmpdir, 'abandon')
+    h = FL.FileLock(path)
+    h.acquire()
+    ino = os.stat(path).st_ino
+    del h
+    gc.collect()
+    if not os.path.exists(path) or os.stat(path).st_ino != ino:
+        problems.append('a holder that was garbage-collected while holding removed / replaced the lock file')
+    o = FL.FileLock(path)
+    if not o.acquire(timeout=0.5):
+        problems.append('after a holder was garbage-collected while holding nobody can acquire the lock')
+    else:
+        o.release()
+    if problems:
+        return problems
+    path2 = os.path.join(tmpdir, 'reuse')
+    a, b, c = FL.FileLock(path2), FL.FileLock(path2), FL.FileLock(path2)
+    a.acquire()
+    real_unlock, real_close = a._unlock, FL.os.close
+    state = {'b': False, 'in_release': False}
+
+    def try_b():
+        if state['in_release'] and not state['b']:
+            state['b'] = bool(b.acquire(blocking=False))
+
+    def unlock(fd):
+        try_b()                      # B tries right before A's unlock ...
+        return real_unlock(fd)
+
+    class OSProxy:
+        def __getattr__(s_, n):
+            return getattr(real_os, n)
+
+        def close(s_, fd):
+            r = real_close(fd)
+            try_b()                  # ... and right after A's close
+            return r
+    real_os = FL.os
+    a._unlock = unlock
+    FL.os = OSProxy()
+    try:
+        state['in_release'] = True
+        a.release()
+        state['in_release'] = False
+    finally:
+        FL.os = real_os
+    if state['b']:
+        if not b.is_locked:
+            problems.append('B acquired during A\'s release but does not report is_locked')
+        if c.acquire(blocking=False):
+            problems.append('B acquired the lock while A was releasing it; once A\'s release() had finished a third '
+                            'object could acquire the same lock file while B was still inside (A\'s late unlock hit a '
+                            'descriptor number that had become B\'s)')
+            c.release()
+        b.release()
+    for o_ in (a, b, c):
+        try:
+            o_.release(force=True)
+        except Exception:
+            pass
+    return problems
+
+
 def gen_sequences(maxlen, rng, budget):
     moves = [(t, o, op) for t in range(2) for o in range(2) for op in OPS]
     seen = 0
@@ -444,8 +514,9 @@ def main():
                               tmpdir)
             print('\n'.join(pr) or 'OK')
             return 1 if pr else 0
-        pr = interrupted_wait(tmpdir) or release_while_another_thread_polls(tmpdir)
-        runs += 4
+        pr = interrupted_wait(tmpdir) or release_while_another_thread_polls(tmpdir) or \
+            abandoned_holder_and_descriptor_reuse(tmpdir)
+        runs += 6
         if pr:
             print('filelock_ops: directed scenarios')
             for x in pr:
